@@ -38,7 +38,10 @@ MANIFEST = {
             're-iterable containers are rendered a second time (same '
             'result), and all nestings of two loops of length 0..3 check '
             'that the inner loop shadows the outer variables only until '
-            'its end tag.',
+            'its end tag.  Plain dictionaries iterated without `mapping` '
+            'are client objects (their keys are not names); runs of '
+            'different false values (0, None, empty string) are '
+            'boundaries for first-x / last-x.',
     'note': 'Trusted: the positional reference table in this driver (own '
             'roman-numeral routine).  first-x/last-x are asserted for '
             'unbatched runs only; sequence-key for 2-tuples only.',
